@@ -43,6 +43,41 @@ def known_gap():
 
 
 # ---------------------------------------------------------------- independent reading of the code
+# ---------------------------------------------------------------- from a term disagreement to an execution
+OPCODE = {v[0]: k for k, v in c06.PURE.items()}
+
+
+def witness_program(tree, model_text):
+    """The term cross-check found operand values (z3 model) for which the implementation's term and the
+    model's term differ.  For a pure expression, build the program that computes it on those values and
+    jumps to a jumpdest exactly when the EVM result comes out: (code, expected value) or None."""
+    vals = {}
+    for part in (model_text or "").split(", "):
+        name, _, v = part.partition("=")
+        if name.startswith("etk_var") and v.strip().lstrip("-").isdigit():
+            vals[int(name[7:])] = int(v) % W
+
+    def ev(e):
+        if e[0] == "var":
+            return vals.get(e[1], 0)
+        if e[0] == "c":
+            return e[1] % W
+        if e[0] == "pc":
+            raise KeyError
+        return c06.PURE_BY_NAME[e[0]][2](*[ev(a) for a in e[1]])
+
+    def code(e):
+        if e[0] in ("var", "c"):
+            return C.push(ev(e), 32)
+        return b"".join(code(a) for a in reversed(e[1])) + bytes([OPCODE[e[0]]])
+
+    try:
+        value = ev(tree)
+        return jump_via(code(tree), value), value
+    except (KeyError, IndexError, TypeError):
+        return None
+
+
 def decode(code):
     """-> list of (offset, byte, imm) of the complete instructions"""
     out, off = [], 0
@@ -275,12 +310,18 @@ def check(run):
         return run.finish(trusted=TRUSTED)
 
     # ---- term cross-check (model terms vs the real z3 terms)
+    witness_cases = []
     try:
         dis_list, det = c05ops.run_ops(run)
         ops_cases, ops_dis = det.get("cases", 0), len(dis_list)
         ops_detail = [{k: d.get(k) for k in ("cat", "expr", "verdict", "detail", "impl_term", "model_term")} for d in dis_list[:3]]
         for d in dis_list[:3]:
             run.log(f"TERM DISAGREE {d.get('expr', '')[:120]}: {d.get('verdict')} {str(d.get('detail'))[:200]}")
+        for d in dis_list:
+            if d.get("verdict") == "sat" and d.get("tree") is not None and len(witness_cases) < 12:
+                w = witness_program(d["tree"], d.get("detail"))
+                if w:
+                    witness_cases.append(("term-witness", w[0]))
     except Exception as e:      # noqa: BLE001
         ops_cases, ops_dis, ops_detail = 0, 1, f"cross-check crashed: {e!r}"
     run.corr["cases"] += ops_cases
@@ -296,6 +337,7 @@ def check(run):
     step = 1 if run.tier == "thorough" else 9
     cases += [(k, c) for i, (k, b, c) in enumerate(pos) if (k in ("target", "condition", "entry-stack", "middle-operand") and i % step == 0) or (k == "second-operand" and i % 3 == 0)]
     cases.append(("cancun-gap", bytes.fromhex("60005c00")))
+    cases += witness_cases          # programs built from the operand values on which a term differs
     reqs = []
     for _, c in cases:
         h = c.hex() or "-"
